@@ -41,6 +41,21 @@ def o1(W, ob):
                  witness=path_str(f, p) if p else None)
 
 
+    # the ack itself is unconditional: send_input_ack always queues an InputAck carrying last_recv_frame()
+    a = W.fn(UDP + '::send_input_ack')
+    ob.check(W.cg.fn_must_call(a, UDP + '::queue_message'), 'send_input_ack|always-queues',
+             'send_input_ack queues an InputAck on every path', 'send_input_ack can return without queuing an InputAck (e.g. suppressing a "repeated" ack): after one lost ack '
+             'the sender is never told again what was received', where(a))
+    acks_ = [s for f2, s in W.constructions('InputAck') if f2 is a]
+    okv = len(acks_) == 1 and 'last_recv_frame(' in key(W.ctx(a).expr_operand(acks_[0].rv.ops[0]))
+    ob.check(okv, 'send_input_ack|acks-last-received', 'the ack carries last_recv_frame()', 'the InputAck does not carry last_recv_frame()', where(a))
+    q = W.fn(UDP + '::queue_message')
+    cxq = W.ctx(q)
+    pushes = [t for t in q.calls() if last_seg(t.callee.best) == 'push_back' and cxq.ap_carry(t.args[0].place).s(q) == 'self.send_queue']
+    ob.check(len(pushes) == 1 and cfg_of(q).path_avoiding(cfg_of(q).returns, [pushes[0].bb]) is None, 'queue_message|always-enqueues',
+             'queue_message appends to the send queue on every path', 'queue_message can return without enqueuing the message', where(q))
+
+
 def o2(W, ob):
     si = W.fn(UDP + '::send_input')
     G = W.guards(si)
